@@ -100,10 +100,29 @@ def gen_extra(rng, spec):
     return cat.gen_value(rng, spec)
 
 
-def build(rng, e, form):
-    """arguments for entry e; vector arguments in `form` ('array' or 'list')"""
+def build(rng, e, form, null=False, long=False):
+    if long:
+        cat.FORCE_LONG = True
+        try:
+            return build(rng, e, form, null)
+        finally:
+            cat.FORCE_LONG = False
+    """arguments for entry e; vector arguments in `form` ('array' or 'list'); null: every argument at its neutral value (zero
+    vector, identity matrix, zero angle: where shortcuts that hand out a ready-made result live)"""
     def val(spec):
         v = gen_extra(rng, spec)
+        if null:
+            k = spec[0]
+            if k in ('V', 'VSMALL3', 'UNIT3', 'VTINY6', 'AN3') and isinstance(v, np.ndarray):
+                v = np.zeros_like(v)
+            elif k == 'Q':
+                v = np.r_[1.0, 0, 0, 0]
+            elif k in ('R3', 'T3', 'R2', 'T2') and isinstance(v, np.ndarray):
+                v = np.eye(v.shape[0])
+            elif k in ('A', 'S', 'S01', 'SPOS'):
+                v = 0.0
+            elif k == 'I':
+                v = 0
         if spec[0] in ('V', 'VSMALL3', 'Q', 'UNIT3', 'VTINY6') and form == 'list':
             return np.asarray(v).tolist()
         return v
@@ -157,6 +176,22 @@ def diff_where(before, after, path='arg'):
 
 
 # ----------------------------------------------------------------------------- (i) catalogue sweep
+def scribble(x, depth=0):
+    """write into every writable numeric array of a result (what a caller may do with a value it owns); returns the count"""
+    n = 0
+    if isinstance(x, np.ndarray):
+        if x.flags.writeable and x.dtype.kind in 'fiu' and x.size:
+            x[...] = 7.25 if x.dtype.kind == 'f' else 7
+            n += 1
+    elif isinstance(x, (list, tuple)) and depth < 3:
+        for v in x:
+            n += scribble(v, depth + 1)
+    elif isinstance(getattr(x, 'data', None), list) and depth < 3:
+        for v in x.data:
+            n += scribble(v, depth + 1)
+    return n
+
+
 def run_call(ctx, p):
     e = ENTRIES[p['entry']]
     args, kwargs, form = p['args'], p['kwargs'], p['form']
@@ -209,6 +244,18 @@ def run_call(ctx, p):
                                                                                  core.short(o2[1].data if isinstance(getattr(o2[1], 'data', None), list) else o2[1], 200)))
     elif o1[0] != o2[0]:
         ctx.bad('deterministic', dict(sig, kind='second_evaluation_differs'), '%s: first evaluation %s, second %s' % (e['name'], core.short(o1[1], 100), core.short(o2[1], 100)))
+    if o1[0] == 'ok' and o2[0] == 'ok' and 'plot' not in e['tags'] and 'random' not in e['tags'] and '_seed' not in kwargs:
+        # a result belongs to the caller, who may write into it: a third evaluation on equal inputs is not affected by that
+        # (a function that hands out one module-level array -- "the identity, built once" -- would be)
+        try:
+            a3, k3, r3 = clone(a2), clone(k2), clone(r2)
+            keep = clone(o2[1])
+            if scribble(o1[1]):
+                o3 = do(a3, k3, r3)
+                ctx.judge('deterministic', o3[0] == 'ok' and same(o3[1], keep), dict(sig, kind='result_shared_between_calls'),
+                          lambda: '%s: after the caller wrote into the first result, the same call returns %s (before: %s)' % (e['name'], core.short(o3[1], 200), core.short(keep, 200)))
+        except Exception:
+            pass
     ctx.cell('call', e['name'], form)
     if has_payload(args, kwargs, recv):
         ctx.nontrivial('call', e['name'], form)
@@ -336,7 +383,7 @@ def run_member(ctx, p):
     except Exception as e:
         ctx.ood('args_unchanged')
         return
-    sig = dict(api='%s.%s' % (c, name), m='1' if m == 1 else 'M')
+    sig = dict(api='%s.%s' % (c, name), m='1' if m == 1 else 'M' if m <= 3 else 'L')
     calls = []
     if kind == 'property':
         calls.append(((), lambda: getattr(x, name)))
@@ -364,6 +411,17 @@ def run_member(ctx, p):
         for a in argsets:
             calls.append((a, lambda a=a: f(*a)))
     x_twin = clone(x)          # equal but separate receiver for the second evaluation
+    po0 = dict(np.get_printoptions())
+    if p['seed'] % 2:
+        # the user's own (non-default) NumPy print settings: a call that sets and "restores" them to the defaults shows here only
+        np.set_printoptions(linewidth=163, precision=11)
+    try:
+        _run_member_calls(ctx, p, c, name, kind, m, x, x_twin, calls, sig)
+    finally:
+        np.set_printoptions(**po0)
+
+
+def _run_member_calls(ctx, p, c, name, kind, m, x, x_twin, calls, sig):
     for a, thunk in calls:
         before = snapshot((x, a))
         ps0 = process_state()
@@ -379,6 +437,8 @@ def run_member(ctx, p):
                       c, name, [u for u in ps0 if u not in ps1], [u for u in ps1 if u not in ps0]))
         if ps1 != ps0:
             _restore_state(ps0)
+            if p['seed'] % 2:
+                np.set_printoptions(linewidth=163, precision=11)
         if raised is None and name not in ('__iter__',):
             # same call on equal inputs must give an equal output
             try:
@@ -587,6 +647,68 @@ def run_history(ctx, p):
     ctx.nontrivial('history', p['seed'])
 
 
+def run_threads(ctx, p):
+    """the same calls from four threads at once (interpreter switch interval 1e-6 s): every result equals the one obtained
+    alone -- a function that keeps an intermediate value in module-level storage gives itself away here.  (Pure functions of
+    their arguments have no schedule to depend on; this is the "for every schedule" part of the same-inputs-same-outputs clause.)"""
+    import threading
+    rng = np.random.default_rng(p['seed'])
+    cases = []
+    for ei in p['entries']:
+        e = ENTRIES[ei]
+        if 'plot' in e['tags'] or 'random' in e['tags'] or e['kwargs'].get('_seed') is not None:
+            continue
+        try:
+            args, kwargs, recv = build(rng, e, 'array')
+        except Exception:
+            continue
+        if '_seed' in kwargs:
+            continue
+        f = cat.resolve(e['target'])
+
+        def call(f=f, e=e, args=args, kwargs=kwargs, recv=recv):
+            a, k, r = clone(args), clone(kwargs), clone(recv)
+            return f(r, *a, **k) if e['target'].startswith('m:') else f(*a, **k)
+        try:
+            refv = call()
+        except Exception:
+            continue
+        cases.append((e['name'], call, refv))
+    if len(cases) < 4:
+        ctx.ood('deterministic')
+        return
+    bad = []
+    old = sys.getswitchinterval()
+    sys.setswitchinterval(1e-6)
+
+    def worker(k):
+        order = np.random.default_rng(p['seed'] + k).permutation(len(cases))
+        for _ in range(p['rounds']):
+            for j in order:
+                name, call, refv = cases[j]
+                try:
+                    out = call()
+                    if not same(out, refv):
+                        bad.append((name, core.short(out, 120), core.short(refv, 120)))
+                except Exception as ex:
+                    bad.append((name, repr(ex), core.short(refv, 120)))
+                if len(bad) > 5:
+                    return
+    try:
+        ths = [threading.Thread(target=worker, args=(k,)) for k in range(4)]
+        for t in ths:
+            t.start()
+        for t in ths:
+            t.join()
+    finally:
+        sys.setswitchinterval(old)
+    names = sorted(set(b[0] for b in bad))
+    ctx.judge('deterministic', not bad, dict(api=names[0] if names else 'threads', kind='result_depends_on_concurrent_calls'),
+              lambda: 'run from 4 threads, %s returned %s; alone it returns %s (%d mismatches in %s)' % (bad[0][0], bad[0][1], bad[0][2], len(bad), names))
+    ctx.cell('threads', len(cases))
+    ctx.nontrivial('threads', p['seed'])
+
+
 def run_mutator(ctx, p):
     """the documented list-mutation methods act on their receiver only: after acc.extend(a) (append, insert, acc[i] = a, acc += a)
     the argument is unchanged -- and stays unchanged when acc is mutated further (the receiver took the values, not the list)"""
@@ -637,7 +759,7 @@ def run_mutator(ctx, p):
     ctx.nontrivial('mutator', c, how, m0, m1)
 
 
-RUNNERS = {'call': run_call, 'member': run_member, 'history': run_history, 'mutator': run_mutator}
+RUNNERS = {'call': run_call, 'member': run_member, 'history': run_history, 'mutator': run_mutator, 'threads': run_threads}
 
 
 def setup(ctx):
@@ -660,6 +782,18 @@ def run(ctx):
                 rd = None if recv is None else [type(recv).__name__, [np.array(v) for v in recv.data]]
                 alt = build(rng, e, form)
                 drive(RUNNERS, ctx, 'call', dict(entry=ei, args=args, kwargs=kwargs, recv=rd, form=form, alt_args=alt[0], alt_kwargs=alt[1]))
+                if _ < max(1, reps // 8) and (('V', None) in list(e['args']) + list(e['kwargs'].values()) or (e['recv'] or ('',))[0] == 'OBJM'):
+                    # sequences / receivers of 64 values and more (where block-wise or in-place bulk paths start)
+                    largs, lkw, lrecv = build(rng, e, form, long=True)
+                    lrd = None if lrecv is None else [type(lrecv).__name__, [np.array(v) for v in lrecv.data]]
+                    drive(RUNNERS, ctx, 'call', dict(entry=ei, args=largs, kwargs=lkw, recv=lrd, form=form + ':long', alt_args=None, alt_kwargs=None))
+                if form == 'array' and recv is None:
+                    nargs, nkw, _ = build(rng, e, form, null=True)
+                    drive(RUNNERS, ctx, 'call', dict(entry=ei, args=nargs, kwargs=nkw, recv=None, form='null', alt_args=alt[0], alt_kwargs=alt[1]))
+    for blk in range(0, len(ENTRIES), 12):
+        i += 1
+        if ctx.mine(i):
+            drive(RUNNERS, ctx, 'threads', dict(entries=list(range(blk, min(blk + 12, len(ENTRIES)))), seed=int(rng.integers(1 << 30)), rounds=20 if ctx.tier == 'quick' else 200))
     for c in sorted(cat_multi()):
         if not hasattr(getattr(S(), c), 'Empty'):
             continue
@@ -672,11 +806,11 @@ def run(ctx):
     driven, skipped = 0, []
     for c in CLS:
         for name, kind in members(c):
-            for m in ((1, 3) if c in cat_multi() else (1,)):
+            for m in ((1, 3, 66, 130) if c in cat_multi() else (1,)):
                 i += 1
                 if not ctx.mine(i):
                     continue
-                for _ in range(max(1, reps // 2)):
+                for _ in range(max(1, reps // 2) if m <= 3 else max(1, reps // 16)):
                     drive(RUNNERS, ctx, 'member', dict(cls=c, name=name, kind=kind, m=m, seed=int(rng.integers(1 << 30))))
                 driven += 1
     if ctx.shard == 0:
